@@ -430,6 +430,14 @@ def check(ctx):
                 if nm_.endswith("_unchecked"):
                     pre_ = _IDX_LT_N
                 a_ = ctx.analysis_inl(cfg, k_, pre_, split=True, tag="c09n") if pre_ is not None else ctx.analysis_inl(cfg, k_, split=True, tag="c09n")
+                # the impl exists only where the shorter length does (`N: Sub<B1>`, `N: Sub<K>`): make the type-level side facts (N >= 1, N >= K)
+                # of the signature's types known before the checks are judged
+                for t_ in list((b_.get("sig") or {}).get("inputs", [])) + [(b_.get("sig") or {}).get("output")] + [a_.local_ty(i_) for i_ in range(len(a_.locals))]:
+                    if isinstance(t_, dict):
+                        try:
+                            a_.tenv.size(t_)
+                        except Exception:
+                            pass
                 pan_ = _rp(a_)
                 ctx.ob("C09.N", k_, not pan_, "no path of the operation ends in a panic of its own (compiler-inserted checks included)%s: %s" % (
                     " under idx < N" if pre_ is not None else "", (not pan_) or pan_), at=b_["at"], cfg=cfg)
